@@ -268,9 +268,9 @@ def replay(case):
 
 
 def run(rep, tier, seed):
-    limit = 48 if tier == 'quick' else 1500
+    limit = 48 if tier == 'quick' else 300
     pts = [(n, p, None) for n, p in points(tier)]
-    shipped_limit = {5: 3000, 7: 500, 8: 200, 9: 120, 10: 40, 13: 16} if tier == 'quick' else {5: 30000, 7: 8000, 8: 3000, 9: 2500, 10: 400, 13: 120}
+    shipped_limit = {5: 3000, 7: 500, 8: 200, 9: 120, 10: 40, 13: 16} if tier == 'quick' else {5: 30000, 7: 8000, 8: 1500, 9: 1200, 10: 200, 13: 60}
     for n, p in RS.SHIPPED:
         pts.append((n, p, shipped_limit.get(max(p['shape']), 40)))
     # big jobs first
